@@ -4,7 +4,7 @@ import json
 import os
 import random
 
-from harness import audit, gen, report, runner, wire
+from harness import audit, gen, multi, report, runner, wire
 
 ID = 'C02'
 LEVEL = 'exploration'
@@ -15,7 +15,7 @@ RULE = ('one case = one scripted peer audited under 7 option sets (colour, -n, -
         '(refused, silent, closed after banner, garbage, truncated KEXINIT, wrong first packet, bad block size), and policy audits (-P) of passing and failing peers.  Oracle: status == 3/2/0 by the '
         'worst finding level visible in the report (algorithm notes by tag, general/security lines by colour); broken handshakes: status not in {0,2,3} and no algorithm lines/lists; policy: status 0 <=> passed, 3 <=> failed.  '
         'A case is non-trivial when at least one option set produced a report/verdict that was compared with the status; distinct = distinct peer specifications')
-REQUIRED = {'client_audits': 8, 'empty_entry_after_findings': 5, 'single_failure_by_entry_shape': 6, 'banners_with_two_findings': 2, 'gss_only_failure': 4, 'empty_entry_before_failure': 4, 'broken_after_rated_banner': 9, 'builtin_policy_runs': 10, 'outdated_builtin_policy_runs': 4, 'status_checks': 200, 'expect3': 10, 'expect2': 5, 'expect0': 3, 'broken_handshakes': 10, 'policy_runs': 10}
+REQUIRED = {'multi_target_runs': 12, 'client_audits': 8, 'empty_entry_after_findings': 5, 'single_failure_by_entry_shape': 6, 'banners_with_two_findings': 2, 'gss_only_failure': 4, 'empty_entry_before_failure': 4, 'broken_after_rated_banner': 9, 'builtin_policy_runs': 10, 'outdated_builtin_policy_runs': 4, 'status_checks': 200, 'expect3': 10, 'expect2': 5, 'expect0': 3, 'broken_handshakes': 10, 'policy_runs': 10}
 ASSUMPTIONS = ['findings are algorithm notes plus failure/warning coloured lines of the general and security sections; (nfo), (rec) and (fin) lines are presentation, not findings',
                'levels of untagged (gen)/(sec) lines are only observable in colour renderings; the expected status of all option sets of a peer is derived from its colour rendering']
 MANIFEST = {
@@ -88,6 +88,13 @@ def cases(tier, seed):
     for i, n in enumerate(chosen):
         for drift in (False, True):
             cs.append({'kind': 'builtin-policy', 'policy': n, 'drift': drift, 'json': (i + drift) % 2 == 0, 'outdated': n in outdated})
+    # a targets-file run: the status is that of the worst finding in the whole report, whichever target completes last (--threads 1: completion order == file order)
+    pool = ['rsa1024', 'warn-only', 'good-only', '!refused']
+    perms = [p_ for n_ in (2, 3, 4) for p_ in itertools.permutations(pool, n_)]
+    for i, perm in enumerate(perms):
+        if tier == 'quick' and i % 5 != seed % 5 and len(perm) != 2:
+            continue
+        cs.append({'kind': 'multi', 'targets': list(perm), 'threads': 1 if i % 4 else 2})
     return cs
 
 
@@ -458,8 +465,35 @@ def run_builtin_policy(c):
     return viol, counters
 
 
+def run_multi_status(c):
+    """-T run in plain text: exit status == 1 if a target could not be audited, else the worst level among all finding lines of the whole report."""
+    viol, counters = [], {}
+    targets = [multi.Target('refused', kind='refused') if n == '!refused' else multi.Target(n, multi.healthy(n)) for n in c['targets']]
+    try:
+        res = multi.run_multi(targets, c['threads'], 'text', tmo=2, timeout=150)
+    finally:
+        for t in targets:
+            t.stop()
+    r = res['run']
+    if r.timed_out:
+        return None, {'why': 'watchdog'}
+    levels = set()
+    for block in res['raw_blocks'] or [r.out]:
+        lv, _x, _rep = text_levels(block)
+        levels |= lv
+    want = 1 if '!refused' in c['targets'] else want_status(levels)
+    counters['status_checks'] = 1
+    counters['multi_target_runs'] = 1
+    if levels:
+        counters['multi_target_levels_seen'] = len(levels)
+    if r.status != want:
+        viol.append(_v('C02/multi-target-status:got%s-want%s' % (r.status, want), 'exit status of a targets-file run is not that of the worst finding its report shows (a target that could not be audited counts as a connection error)',
+                       targets=c['targets'], threads=c['threads'], levels=sorted(levels), got=r.status))
+    return viol, counters
+
+
 def run_case(c):
-    fn = {'client': run_client, 'builtin-policy': run_builtin_policy, 'mix': run_mix, 'ssh1': run_ssh1, 'ssh199': run_ssh199, 'nonascii-banner': run_nonascii, 'broken': run_broken, 'policy': run_policy}[c['kind']]
+    fn = {'multi': run_multi_status, 'client': run_client, 'builtin-policy': run_builtin_policy, 'mix': run_mix, 'ssh1': run_ssh1, 'ssh199': run_ssh199, 'nonascii-banner': run_nonascii, 'broken': run_broken, 'policy': run_policy}[c['kind']]
     viol, counters = fn(c)
     if viol is None:
         return {'verdict': 'inconclusive', 'why': counters.get('why')}
